@@ -78,6 +78,32 @@ def assert_tree() -> None:
         raise HarnessError(f"scippneutron imported from {here}, expected under {repo_src()}")
 
 
+def clear_package_caches() -> None:
+    """Clear every functools cache found in scippneutron.atoms (state must not leak between cases).
+    Written against whatever caches exist, so that a change of the caching strategy in the package
+    does not break the harness."""
+    import scippneutron.atoms as atoms
+
+    seen = set()
+    stack = [atoms]
+    while stack:
+        obj = stack.pop()
+        for name in dir(obj):
+            if name.startswith("__"):
+                continue
+            try:
+                attr = getattr(obj, name)
+            except Exception:  # noqa: BLE001
+                continue
+            if id(attr) in seen:
+                continue
+            seen.add(id(attr))
+            if hasattr(attr, "cache_clear") and callable(attr.cache_clear):
+                attr.cache_clear()
+            elif isinstance(attr, type) and getattr(attr, "__module__", "") == atoms.__name__:
+                stack.append(attr)
+
+
 class Violation(Exception):
     def __init__(self, kind: str, message: str, details: Any = None):
         super().__init__(f"{kind}: {message}")
